@@ -336,8 +336,11 @@ Known(o) == {p \in Pids : o.script[p] # 0 /\ o.host[p] >= 0}
 DoneP(o, p) == o.res[p] # None
 FailedP(o, p) == o.res[p] # None /\ ~o.res[p][1].ok
 
+\* at quiescence the clock has passed every started deadline, so a select that still lists a timeout
+\* never started its timer and never will: a lost wake-up
 ReadyQ(o, p, src) ==
   IF src.k = "await" THEN src.t \in Pids /\ DoneP(o, src.t)
+  ELSE IF src.k = "timeout" THEN TRUE
   ELSE SrcReady([mailbox |-> o.mbox[p], awaiting |-> o.known[p], sel |-> o.sel[p]], src, o.now)
 
 FromP(o, q, p) == SelectSeq(o.arrived[q], LAMBDA m : \E i \in 1..Len(o.sent[p][q]) : o.sent[p][q][i] = m)
